@@ -17,6 +17,7 @@ package c08
 import (
 	"fmt"
 	"io"
+	"os"
 	"strings"
 
 	"github.com/benoitkugler/webrender/logger"
@@ -37,6 +38,12 @@ type check struct {
 	shCases  []shCase
 
 	nA, nB, nC, nD int64 // units per part
+	nB1            int64 // units of part b that come from the materialised reference cases (the rest: layered family)
+	lyFams         []lyFamily
+	lyOffsets      []int64
+	lyTotal        int64
+	lyRefCache     map[string]string
+	listsOnly      bool
 	bCases         []bCase
 	cUnits         []cUnit
 	dBlocks        [][]int
@@ -65,6 +72,18 @@ func (c *check) Init(tier string, seed int64) engine.Space {
 	c.initB()
 	c.initC()
 	c.initD()
+	// development aid: VERIF_C08_PARTS=bc explores only the named parts (never set in a real run;
+	// the restriction is shown in the bounds of the evidence)
+	only := os.Getenv("VERIF_C08_PARTS")
+	if only != "" {
+		c.listsOnly = strings.Contains(only, "A")
+		only = strings.ReplaceAll(only, "A", "a")
+		for p, n := range map[string]*int64{"a": &c.nA, "b": &c.nB, "c": &c.nC, "d": &c.nD} {
+			if !strings.Contains(only, p) {
+				*n = 0
+			}
+		}
+	}
 	return engine.Space{
 		Units: c.nA + c.nB + c.nC + c.nD, Chunk: 1, Level: "model_checking",
 		Rule: "part a: one unit per property; every sequence of <= 3 tokens (thorough: 4 for small alphabets) over the per-property alphabet is validated, " +
@@ -82,6 +101,9 @@ func (c *check) Init(tier string, seed int64) engine.Space {
 			"context_keywords":         ctxKeywords,
 			"max_tokens":               map[bool]int{false: 3, true: 4}[c.thorough],
 			"units_a_b_c_d":            []int64{c.nA, c.nB, c.nC, c.nD},
+			"parts_restricted_by_env":  only,
+			"layered_background_cases": c.lyTotal,
+			"layered_background":       "2 layers: every set of present components per layer (71 x 143, colour or not in the final layer) x 3 rotations of the per-layer value menus; 3 layers: the same (thorough) / a menu of 10 component sets per layer (quick)",
 			"shorthand_ref_cases":      len(c.bCases),
 			"custom_property_graphs":   map[bool]string{false: "all 512 edge sets on 3 names", true: "all 512 edge sets on 3 names + the 4-name edge sets (of 65536) in which every name is reachable from the referenced one"}[c.thorough],
 			"shared_declaration_cases": fmt.Sprintf("%d rule templates x %d arrangements of 2-4 matched elements (siblings in every order, parent/child/grandchild with own, inherited and partly inherited custom properties)", len(shTemplates), len(shConfigs(shTemplates[0]))),
